@@ -108,8 +108,9 @@ func (w *scWorld) stepConc(i int, op string) (out string, retry bool) {
 	}
 	results, trace, clones, err := c08RunConc(w, bs, threads, sched)
 	if err != "" {
-		w.fail("scheduler: %s", err)
-		return "sched-error", false
+		// the run is abandoned (its goroutines are leaked); runC08 drives the case again on fresh caches
+		w.schedErr = err
+		return "sched-error", true
 	}
 	// Specification of a write racing with the block's commit: Commit locks the block cache for its whole duration
 	// (from before its first shared-map access to its return), so a write issued while the commit is in flight waits
@@ -251,11 +252,16 @@ func (w *scWorld) stepConc(i int, op string) (out string, retry bool) {
 }
 
 func runC08(ops []string) CaseResult {
+	schedErrs := 0
+	defer c08SchedTO.Store(0)
 	for try := 0; try < 200; try++ {
 		res := CaseResult{}
 		w := newSCWorld(&res)
 		w.strict = true
 		retry := false
+		if schedErrs == schedAttempts-1 {
+			c08SchedTO.Store(int64(60 * time.Second)) // last attempt: every wait of the scheduler raised to 60 s
+		}
 		for i, op := range ops {
 			if strings.HasPrefix(op, "conc ") {
 				out, again := w.stepConc(i, op)
@@ -268,8 +274,23 @@ func runC08(ops []string) CaseResult {
 				res.Outs = append(res.Outs, w.step(i, op))
 			}
 		}
+		if w.schedErr != "" {
+			// a scheduler wait timed out: transient on a loaded machine, persistent if the code hangs under this schedule
+			schedErrs++
+			if schedErrs < schedAttempts {
+				continue
+			}
+			outs := make([]string, len(ops))
+			for i := range outs {
+				outs[i] = "sched-error"
+			}
+			return CaseResult{Outs: outs, Fails: []string{fmt.Sprintf("schedule could not be driven: %s, %d attempts (%s)", w.schedErr, schedAttempts, strings.Join(ops, " | "))}}
+		}
 		if retry {
 			continue
+		}
+		for i := 0; i < schedErrs; i++ {
+			res.Tags = append(res.Tags, "sched_retry")
 		}
 		for _, i := range c08Truncated {
 			w.tags[fmt.Sprintf("exhaustive-truncated:two-reader-scenario-%d", i)] = true
@@ -1122,6 +1143,7 @@ func init() {
 		Run:  runC08,
 		Exhaustive: exhC08,
 		Serial:     true,
+		CaseTimeout: 150 * time.Second, // three attempts to drive a schedule: waits of 10 s, 10 s, 60 s
 		DefaultN: func(tier string) int {
 			if tier == "thorough" {
 				return 20000
@@ -1142,7 +1164,7 @@ func init() {
 		Run:         runC08Free,
 		Exhaustive:  exhC08Txn,
 		Serial:      true,
-		CaseTimeout: 120 * time.Second,
+		CaseTimeout: 150 * time.Second,
 		DefaultN: func(tier string) int {
 			if tier == "thorough" {
 				return 16
